@@ -19,7 +19,10 @@ MANIFEST = {
             "are exactly the old or exactly the new state; a tree is only ever deleted file by file once it is hidden; the data of a new "
             "package is written only below a hidden name and becomes visible through one rename.  The one intermediate state a "
             "replacement cannot avoid with two directory renames is a listed known finding.  A native enumeration runs the real "
-            "finalisation steps on scratch repositories, stops them before every file operation and lists the repository afresh.",
+            "finalisation steps on scratch repositories, stops them before every file operation and lists the repository afresh; a second one "
+            "(bounded, C29.fresh_views) drives the whole stack -- repo.operations of the real vdb and binary-package repositories -- lets the process die "
+            "before every mutating file operation and reads every package through a freshly opened real repository (so the reading side, "
+            "index included, is part of what is checked).",
     "note": "Trusted: os.rename is atomic; repository listings skip names starting with '.tmp.' (vdb/ondisk.py, binpkg/repository.py); "
             "the ghost tree; pyvc encoder.  install.add_data's many writes are covered by 'only below the hidden name', not line by line.",
 }
@@ -355,6 +358,180 @@ def enum_interrupted_then_repeated(seed):
             "the installed directory compared with what a complete run writes", "cases": cases, "failures": fails}
 
 
+def enum_fresh_views(seed):
+    """the whole stack: the real vdb and binary-package repositories (ondisk.tree, binpkg.repository.tree), a package installed, removed,
+    replaced by another version and by a rebuild of the same version through repo.operations; the process dies before every mutating file
+    operation in turn (after the death no further file operation of the dying process takes effect); a freshly opened repository then
+    lists the packages and reads description, slot, contents and environment of each: the view must be the one from before the operation
+    or the one after the completed operation.  The binary-package runs are also made on a coarse clock (the rebuilt package file carries
+    the timestamp of the one it replaces)"""
+    import builtins
+    import gc
+    import logging
+    import sys
+    import tempfile
+    from snakeoil.data_source import data_source
+    from pkgcore.binpkg import repository as binpkg_repository
+    from pkgcore.ebuild.atom import atom
+    from pkgcore.fs import contents, fs
+    from pkgcore.vdb import ondisk
+    scratch = tempfile.mkdtemp(prefix="c29c.", dir=os.environ.get("PYVC_SCRATCH", "/var/tmp"))
+    fails, cases = [], 0
+    MUTATORS = ("rename", "replace", "unlink", "remove", "rmdir", "mkdir", "chmod", "utime", "truncate", "symlink", "link")
+
+    class Died(BaseException):
+        pass
+
+    class Pkg:
+        tracked_attributes = ("description", "fullslot", "keywords", "contents", "environment", "use")
+
+        def __init__(self, ver, desc, files, image):
+            self.category, self.package, self.fullver = "cat", "foo", ver
+            self.PF, self.cpvstr = f"foo-{ver}", f"cat/foo-{ver}"
+            self.description, self.fullslot, self.keywords, self.use = desc, "0", ("amd64",), ("foo",)
+            self.environment = data_source(f"DESCRIPTION={desc!r}\n")
+            self.ebuild = data_source(f"# ebuild of {desc}\n")
+            os.makedirs(image, exist_ok=True)
+            ents = []
+            for inode, (name, data) in enumerate(sorted(files.items()), 1000):
+                with open(os.path.join(image, name), "w") as fh:
+                    fh.write(data)
+                ents.append(fs.fsFile("/" + name, strict=False, mode=0o644, uid=0, gid=0, mtime=1000000000, data=data_source(data), dev=1, inode=inode))
+            self.contents = contents.contentsSet(ents)
+
+        @property
+        def versioned_atom(self):
+            return atom(f"={self.cpvstr}")
+
+    def open_repo(kind, root):
+        if kind == "vdb":
+            return ondisk.tree(os.path.join(root, "vdb"), cache_location=os.path.join(root, "vdbcache"))
+        return binpkg_repository.tree(os.path.join(root, "binpkgs"))
+
+    def add_data(kind, root, op):
+        return op.add_data(types.SimpleNamespace(pm_tmpdir=os.path.join(root, "pm_tmp"))) if kind == "vdb" else op.add_data()
+
+    def fresh_view(kind, root):
+        view = {}
+        try:
+            for pkg in open_repo(kind, root):
+                try:
+                    view[pkg.cpvstr] = [pkg.description, sorted([x.location, x.chksums["md5"]] for x in pkg.contents.iterfiles()),
+                                        pkg.environment.text_fileobj().read(), pkg.fullslot]
+                except Exception as e:
+                    view[pkg.cpvstr] = ["UNREADABLE", f"{type(e).__name__}: {e}"]
+        except Exception as e:
+            view["<listing>"] = ["UNLISTABLE", f"{type(e).__name__}: {e}"]
+        return view
+
+    OLD = ("the first build", {"a": "AAAA", "b": "BBBB"})
+    NEW = ("the second build", {"a": "aaaa-changed", "c": "CCCC"})
+
+    def installed(repo, ver):
+        return repo.match(atom(f"=cat/foo-{ver}"))[0]
+
+    def act(kind, root, what, repo, new):
+        if what == "install":
+            op = repo.operations.install(new)
+            add_data(kind, root, op)
+        elif what == "uninstall":
+            op = repo.operations.uninstall(installed(repo, "1"))
+            op.remove_data()
+        else:
+            op = repo.operations.replace(installed(repo, "1"), new)
+            op.remove_data()
+            add_data(kind, root, op)
+        op.finish()
+
+    def one_run(kind, what, new_ver, coarse, die_at, tag):
+        """-> (view before, view after the death / the completed run, number of mutating operations seen, where it died)"""
+        root = os.path.join(scratch, tag)
+        os.makedirs(os.path.join(root, "vdb" if kind == "vdb" else "binpkgs"))
+        if what != "install":
+            op = open_repo(kind, root).operations.install(Pkg("1", *OLD, os.path.join(root, "image", "old")))
+            add_data(kind, root, op)
+            op.finish()
+        before = fresh_view(kind, root)
+        new = Pkg(new_ver, *NEW, os.path.join(root, "image", "new")) if new_ver else None
+        repo = open_repo(kind, root)
+        list(repo)
+        state = {"n": 0, "dead": None}
+        saved = {n: getattr(os, n) for n in MUTATORS}
+        saved_open = builtins.open
+
+        def tick(what_):
+            if state["dead"] is not None:
+                raise Died(what_)
+            if state["n"] == die_at:
+                state["dead"] = what_
+                raise Died(what_)
+            state["n"] += 1
+
+        def wrap(name):
+            def f(*a, **k):
+                if coarse and name in ("rename", "replace") and len(a) > 1 and str(a[1]).endswith(".tbz2") and os.path.isfile(a[1]) and state["dead"] is None and state["n"] != die_at:
+                    st = os.stat(a[1])
+                    saved["utime"](a[0], ns=(st.st_atime_ns, st.st_mtime_ns))
+                tick(f"os.{name}{tuple(os.path.relpath(x, root) if isinstance(x, str) and x.startswith(root) else x for x in a[:2])!r}")
+                return saved[name](*a, **k)
+            return f
+
+        def open_(file, mode="r", *a, **k):
+            if any(c in mode for c in "wax+"):
+                tick(f"open({os.path.relpath(file, root) if isinstance(file, str) and file.startswith(root) else file!r}, {mode!r})")
+            return saved_open(file, mode, *a, **k)
+        for n in MUTATORS:
+            setattr(os, n, wrap(n))
+        builtins.open = open_
+        hook, sys.unraisablehook = sys.unraisablehook, (lambda *a: None)    # finalisers of the dead process' objects cannot act either
+        err = None
+        try:
+            act(kind, root, what, repo, new)
+        except Died:
+            pass
+        except Exception as e:
+            err = f"{type(e).__name__}: {e}"
+        finally:
+            del repo, new
+            gc.collect()
+            for n in MUTATORS:
+                setattr(os, n, saved[n])
+            builtins.open = saved_open
+            sys.unraisablehook = hook
+        after = fresh_view(kind, root)
+        shutil.rmtree(root, ignore_errors=True)
+        return before, after, state["n"], state["dead"], err
+
+    prev_disable = logging.root.manager.disable
+    logging.disable(logging.CRITICAL)
+    try:
+        scenarios = [(k, w, v, False) for k in ("vdb", "binpkg") for w, v in (("install", "1"), ("uninstall", None), ("replace", "2"), ("replace", "1"))] + \
+                    [("binpkg", "replace", "1", True), ("binpkg", "replace", "2", True)]
+        for kind, what, new_ver, coarse in scenarios:
+            label = f"{kind} {what}" + ({"1": " by a rebuild of the same version", "2": " by another version"}[new_ver] if what == "replace" else "") + (" (coarse clock)" if coarse else "")
+            tag = f"{kind}-{what}-{new_ver}-{int(coarse)}"
+            old_view, new_view, n_ops, _dead, err = one_run(kind, what, new_ver, coarse, None, tag + "-full")
+            cases += 1
+            if err or old_view == new_view or any(v[0] in ("UNREADABLE", "UNLISTABLE") for v in (*old_view.values(), *new_view.values())):
+                fails.append({"model": {"operation": label}, "detail": f"{label}: the completed operation {'raised ' + err if err else ''} shows {old_view} -> {new_view}"})
+                continue
+            for point in range(n_ops):
+                before, seen, _n, dead, err = one_run(kind, what, new_ver, coarse, point, f"{tag}-{point}")
+                cases += 1
+                if seen in (old_view, new_view) and not err:
+                    continue
+                window = what == "replace" and ((new_ver == "1" and seen == {}) or (new_ver == "2" and seen == {**old_view, **new_view}))
+                if window or _unlisted(fails) < 5:
+                    fails.append({"model": {"operation": label, "dies_before_file_operation": point, "file_operation": dead, "fresh_view": seen, **({"replace_between_its_two_renames": True} if window else {})},
+                                  "detail": f"{label}: the process dies before file operation #{point} ({dead}){'; the operation raised ' + err if err else ''}: a fresh repository shows {seen}; old state {old_view}, new state {new_view}"})
+    finally:
+        logging.disable(prev_disable)
+        shutil.rmtree(scratch, ignore_errors=True)
+    return {"name": "C29.fresh_views.bounded_enumeration", "bound": "install / uninstall / replace by another version / replace by a rebuild of the same version of one package (two files, environment, description) through "
+            "repo.operations of the real vdb and binary-package repositories, the binary-package replacements also on a coarse clock; the process dies before every mutating file operation (os.rename / replace / unlink / remove / "
+            "rmdir / mkdir / chmod / utime / truncate / symlink / link, open for writing) in turn; a freshly opened repository lists and reads every package", "cases": cases, "failures": fails}
+
+
 def _raw(f):
     """the method body itself (snakeoil's ForcedDepends wraps stages so that calling one runs its prerequisites first)"""
     return getattr(f, "sd_raw_func", f)
@@ -376,6 +553,8 @@ def tasks():
         Task("C29.vdb", t_vdb, [(VDB, "install.finalize_data"), (VDB, "uninstall.finalize_data"), (VDB, "uninstall._hide_removed"), (VDB, "replace.finalize_data"), (VDB, "install.add_data")],
              enumerate=enum_interrupted_then_repeated),
         Task("C29.binpkg", t_binpkg, [(BIN, "install.finalize_data"), (BIN, "uninstall.finalize_data"), (BIN, "replace.finalize_data")], enumerate=enum_crashes),
+        Task("C29.fresh_views", None, [("src/pkgcore/binpkg/repository.py", "tree._get_metadata"), ("src/pkgcore/binpkg/repository.py", "tree.notify_add_package"), ("src/pkgcore/vdb/ondisk.py", "tree._get_versions")],
+             enumerate=enum_fresh_views),
     ]
 
 
